@@ -223,8 +223,10 @@ static int32_t wr_summary(struct jls_core_fsr_s * self, uint8_t level) {
     ROE(wr_index(self, level));
 
     uint8_t * p_start = (uint8_t *) dst->summary;
-    uint8_t * p_end = (uint8_t *) dst->summary->data[dst->summary->header.entry_count];
-    uint32_t payload_len = (uint32_t) (p_end - p_start);
+    // entries are 4 x f32 or 4 x f64, depending on the signal's data type
+    uint32_t entry_bytes = (JLS_SUMMARY_FSR_COUNT * (uint32_t) summary_entry_size(self)) / 8;
+    uint32_t payload_len = (uint32_t) sizeof(struct jls_payload_header_s)
+            + dst->summary->header.entry_count * entry_bytes;
     ROE(jls_core_wr_summary(self->parent->parent, self->parent->signal_def.signal_id, JLS_TRACK_TYPE_FSR, level,
                             p_start, payload_len));
     ROE(jls_core_fsr_summaryN(self, level + 1, pos_next));
